@@ -28,6 +28,9 @@ def check(chk, repo):
     nv = check_value_axioms(rep, M)
     from ..rules_metrics import check_shift_wrapper
     check_shift_wrapper(rep, M)
+    # a metric (or its wrapper) that writes through its arguments returns different values for the same pair later on
+    from ..common import check_metric_purity
+    check_metric_purity(rep, repo)
     chk.note("instances", {"symmetric": ns, "zero_self": nz, "definedness_obligations": nf, "value_axioms": nv})
     chk.floor("symmetry claims checked", ns, 40)
     chk.floor("definedness obligations", nf, 60)
